@@ -240,6 +240,18 @@ func genVest(g *Gen, n int) {
 			g.emit("v.withdraw %s", atok(o))
 			g.count("shape/far-future-lock-end")
 		}
+		if sc%2 == 0 {
+			// directed shape: direct creation with several denominations listed in non-ascending order
+			// (the keeper sorts them itself): transferred exactly and vested linearly
+			o := vaddr(11)
+			g.emit("v.fund %s [aaa=1000,uc4e=1000,zzz=1000]", o)
+			fresh++
+			st := now/sec + int64(g.intn(100)) - 50
+			g.emit("v.createVA %s %s %s %d %d", atok(o), atok(vaddr(fresh)), g.pick("[zzz=5,aaa=7]", "[zzz=300,uc4e=20,aaa=1]", "[uc4e=9,aaa=9]"), st, st+g.pickI(1000, 86400))
+			g.emit("v.q.locked %s", vaddr(fresh))
+			cvas = append(cvas, vaddr(fresh))
+			g.count("shape/unsorted-multi-denom-createVA")
+		}
 		nops := 6 + g.intn(20)
 		for i := 0; i < nops; i++ {
 			switch g.intn(14) {
